@@ -346,6 +346,13 @@ def runSched (j : Json) : Json :=
           let i := b + (k : Int)
           !(e.onShift r i && !e.leaveMark r i) || (usageOf (σ.led.get r i).usage t).isSome ||
             pre.any (fun t' => (usageOf (σ.led.get r i).usage t').isSome) || exhaustedB e σ t r i))))
+  -- C11.bookings_inside_horizon / scheduled_dates_inside_horizon
+  let horizonFail := (σ.led.m.toList.filter (fun (ks : Key × Slot) =>
+    !ks.2.usage.isEmpty && !(decide (0 ≤ ks.1.2) && decide (ks.1.2 ≤ e.upper)))).length +
+    (eligSched.filter (fun t =>
+      match (σ.tst t).start, (σ.tst t).stop with
+      | some s, some v => !(decide (e.time 0 ≤ s) && decide (v ≤ e.time (e.upper + 1)))
+      | _, _ => true)).length
   -- C06.start_le_end (single resource, one primary + one alternative)
   let orderedFail := (eligSched ++ altTasks).filter (fun t =>
     match (σ.tst t).start, (σ.tst t).stop with
@@ -430,6 +437,7 @@ def runSched (j : Json) : Json :=
                          ("alt_tasks", Json.num (JsonNumber.fromNat altTasks.length)), ("alt_effort_fail", Json.num (JsonNumber.fromNat altFail.length)),
                          ("alt_framed_fail", Json.num (JsonNumber.fromNat altFrameFail.length)),
                          ("ordered_fail", Json.num (JsonNumber.fromNat orderedFail.length)),
+                         ("horizon_fail", Json.num (JsonNumber.fromNat horizonFail)),
                          ("alt_idle_tasks", Json.num (JsonNumber.fromNat altIdleTasks.length)), ("alt_idle_fail", Json.num (JsonNumber.fromNat altIdleFail.length)),
                          ("alt_fit_fail", Json.num (JsonNumber.fromNat altFitFail.length)),
                          ("alt_alap_tasks", Json.num (JsonNumber.fromNat altAlapTasks.length)), ("alt_alap_idle_fail", Json.num (JsonNumber.fromNat altAlapIdleFail.length)),
